@@ -73,6 +73,16 @@ class QCow2(AlignedStream):
             self.header.refcount_order = 4
             self.header.header_length = 72
 
+        unknown_features = self.header.incompatible_features & ~(
+            c_qcow2.QCOW2_INCOMPAT_DIRTY
+            | c_qcow2.QCOW2_INCOMPAT_CORRUPT
+            | c_qcow2.QCOW2_INCOMPAT_DATA_FILE
+            | c_qcow2.QCOW2_INCOMPAT_COMPRESSION
+            | c_qcow2.QCOW2_INCOMPAT_EXTL2
+        )
+        if unknown_features:
+            raise InvalidHeaderError(f"Unsupported qcow2 incompatible features: 0x{unknown_features:x}")
+
         self.cluster_bits = self.header.cluster_bits
         self.cluster_size = 1 << self.cluster_bits
         self.subclusters_per_cluster = c_qcow2.QCOW_EXTL2_SUBCLUSTERS_PER_CLUSTER if self.has_subclusters else 1
